@@ -156,9 +156,12 @@ pub fn build(p: &P) -> Cmd {
         }),
         P::SpawnAfter(s, m) => Command::new(move |ctx| async move {
             let v = areq(&ctx, s, 0).await;
-            ctx.send_event(Event::got(s, v));
             ctx.spawn(move |ctx| async move {
-                ctx.send_event(Event::mark(m, 0));
+                if is_b(m.label) {
+                    ctx.notify_shell(OpB::make(m.label, v));
+                } else {
+                    ctx.notify_shell(OpA::make(m.label, v));
+                }
             });
         }),
         P::JoinTwice(s, m) => Command::new(move |ctx| async move {
